@@ -1042,7 +1042,7 @@ theorem loopRun_fail {st : StoreSt} {labels : List Nat} {mp : Option Nat} {e : E
       Aligned (fun _ _ => True) ts ls.reader → (∃ t ∈ ts, t.2 = none) →
       ls.lru.Nodup →
       (mp.isSome = true → ∀ (i l : Nat), labels[i]? = some l → L0[i]? = some true → l ∈ ls.lru) →
-      ∃ ls', loopRun st labels mp ls ts = .error (e, ls') ∧ ls'.loaded = L0 ∧ LruSame ls.lru ls'.lru := by
+      ∃ ls', loopRun st labels mp ls ts = .error (e, ls') ∧ ls'.loaded = L0 ∧ LruSame ls.lru ls'.lru ∧ ls'.array = ls.array := by
   intro ts
   induction ts with
   | nil => intro ls _ _ _ _ hex; obtain ⟨t, ht, _⟩ := hex; cases ht
@@ -1060,7 +1060,7 @@ theorem loopRun_fail {st : StoreSt} {labels : List Nat} {mp : Option Nat} {e : E
       simp only [Aligned] at hal
       obtain ⟨f, r, hr, _, _⟩ := hal
       rw [loopBody_deferred_fail (st := st) (mp := mp) (ls := ls) hloc rfl hr (hfail f)]
-      exact ⟨ls, rfl, hL, LruSame.refl hnd⟩
+      exact ⟨ls, rfl, hL, LruSame.refl hnd, rfl⟩
     | some f =>
       have hLtrue : L0[idx]? = some true := by rw [hLi, ht2]; rfl
       have hb : ls.loaded[idx]? = some true := by rw [hL]; exact hLtrue
@@ -1080,10 +1080,10 @@ theorem loopRun_fail {st : StoreSt} {labels : List Nat} {mp : Option Nat} {e : E
         cases hmp : mp.isSome with
         | false => simp only [Bool.false_eq_true, if_false]; exact LruSame.refl hnd
         | true => simp only [if_true]; exact LruSame.touch hnd (hmem hmp idx t.1 hlab hLtrue)
-      obtain ⟨ls', hrun, hl', hs'⟩ := ih { ls with lru := if mp.isSome then touch ls.lru t.1 else ls.lru } hL hk
+      obtain ⟨ls', hrun, hl', hs', harr'⟩ := ih { ls with lru := if mp.isSome then touch ls.lru t.1 else ls.lru } hL hk
         (fun t' ht' => hflag t' (List.mem_cons_of_mem _ ht')) hal' hex' hsame.1
         (fun hmp i l hi hl => (hsame.2.1 l).mpr (hmem hmp i l hi hl))
-      exact ⟨ls', hrun, hl', hsame.trans hs'⟩
+      exact ⟨ls', hrun, hl', hsame.trans hs', harr'⟩
 
 /-- When the store reads fail, an access that needs a load raises that error; flags and cells are untouched, the
     recency list keeps its members (labels served from the cache before the failing read were moved), and the
@@ -1138,18 +1138,19 @@ theorem updateCache_fail {P : Nat → φ → Prop} {store : StoreFn φ} {pinnedR
       simp only [Bool.false_eq_true, if_false]
       rw [storeReaderFrames_eq]
       exact aligned_deferred (P := fun _ _ => True) _ (fun _ => trivial) targets
-  obtain ⟨ls', hrun, hl', hsame⟩ := loopRun_fail (st := st) (mp := s.maxPersist) hinv.labelsNodup hfail s.loaded targets
+  obtain ⟨ls', hrun, hl', hsame, harr⟩ := loopRun_fail (st := st) (mp := s.maxPersist) hinv.labelsNodup hfail s.loaded targets
     { array := s.cache, loaded := s.loaded, lru := s.lru, count := s.loaded.count true,
       reader := (if isElement then targets.map fun t => store (some t.1) t.1
         else storeReaderFrames store pinnedReader s.maxPersist ((targets.filter fun t => t.2.isNone).map (·.1))) }
     rfl (fun k hk => hinv.bound k hk) hflag hal hex hinv.lruNodup
     (fun hmp i l hi hl => (hinv.lruMem hmp i l hi).mp hl)
   rw [hrun]
-  refine ⟨_, rfl, ?_, hl', rfl, rfl, rfl, hsame⟩
-  exact { labelsNodup := hinv.labelsNodup, lenCache := hinv.lenCache,
-          flags := (by show ls'.loaded = _; rw [hl']; exact hinv.flags),
-          allFlag := (by show s.loadedAll = ls'.loaded.all id; rw [hl']; exact hinv.allFlag),
-          content := hinv.content,
+  simp only at harr
+  refine ⟨_, rfl, ?_, hl', harr, rfl, rfl, hsame⟩
+  exact { labelsNodup := hinv.labelsNodup, lenCache := (by show ls'.array.length = _; rw [harr]; exact hinv.lenCache),
+          flags := (by show ls'.loaded = ls'.array.map _; rw [hl', harr]; exact hinv.flags),
+          allFlag := rfl,
+          content := (by intro i l f hi hc; exact hinv.content i l f hi (by rw [← harr]; exact hc)),
           lruNone := (by
             intro hmp
             have h0 := hinv.lruNone hmp
